@@ -398,7 +398,148 @@ func genFMP4(r *rng.R) (Desc, bool) {
 		liveParams(r, &d, &st, d.Leading.FirstLen)
 		d.Rends = append(d.Rends, st)
 	}
+	genUnsupportedFMP4(r, &d)
 	return d, true
+}
+
+var unsupCodecsFMP4 = []string{"mp3", "ac3", "lpcm", "mjpeg", "mpeg4video", "mpeg1video"}
+
+// genUnsupportedFMP4 adds 0..2 tracks the client does not process to every fMP4 playlist:
+// tracks of the init section with a codec the client filters out of OnTracks (MPEG-1 audio,
+// AC-3, LPCM, MJPEG, MPEG-4 video, MPEG-1/2 video), declared before / between / after the
+// supported ones, and track IDs that the init section does not declare at all. Fragments carry
+// trafs for them (in every segment, in some segments, or - for a declared track - in none) at
+// arbitrary positions among the supported tracks' trafs, now and then in a moof of their own.
+// Drawn after everything else, so that the supported content of a (seed, index) is what it was
+// before this dimension existed.
+//
+// A rendition playlist's init section must declare exactly one track (the client rejects any
+// other count before it filters codecs): renditions only get undeclared track IDs.
+func genUnsupportedFMP4(r *rng.R, d *Desc) {
+	nextID := 0
+	for _, st := range d.streams() {
+		for _, sg := range st.Segs {
+			for _, p := range sg.Parts {
+				for _, pt := range p.Tracks {
+					for _, sm := range pt.Samples {
+						if sm.ID >= nextID {
+							nextID = sm.ID + 1
+						}
+					}
+				}
+			}
+		}
+	}
+	for si, st := range d.streams() {
+		n := r.Pick(5, 3, 2)
+		used := map[int]bool{}
+		for _, t := range st.Tracks {
+			used[t.ID] = true
+		}
+		vi := -1
+		for i, t := range st.Tracks {
+			if t.isVideo() {
+				vi = i
+				break
+			}
+		}
+		for x := 0; x < n; x++ {
+			u := UnsupDesc{Codec: unsupCodecsFMP4[r.Pick(4, 2, 2, 2, 2, 1)]}
+			if si > 0 || r.Bool(1, 3) {
+				u.Absent = true
+				u.Codec = "none"
+			}
+			if vi >= 0 && r.Bool(1, 2) {
+				u.Before = r.Intn(vi + 1) // before the H264 track
+			} else {
+				u.Before = r.Intn(len(st.Tracks) + 1)
+			}
+			if u.Absent {
+				u.Before = 0
+			}
+			hi := 250
+			if r.Bool(1, 2) {
+				hi = 8 // next to the supported tracks' IDs
+			}
+			u.ID = 1 + r.Intn(hi)
+			for used[u.ID] {
+				u.ID = 1 + r.Intn(hi)
+			}
+			used[u.ID] = true
+			var nominal int64
+			if u.isVideo() {
+				u.TimeScale = leadScales[r.Intn(len(leadScales))]
+				nominal = u.TimeScale / 25
+			} else {
+				u.TimeScale = audioScales[r.Intn(len(audioScales))]
+				nominal = 1152 * u.TimeScale / 48000
+			}
+			if nominal < 1 {
+				nominal = 1
+			}
+			st.Unsup = append(st.Unsup, u)
+			mode := r.Pick(2, 5, 3) // no trafs | in every segment | in some segments
+			if u.Absent && mode == 0 {
+				mode = 1
+			}
+			for k := range st.Segs {
+				sg := &st.Segs[k]
+				if mode == 0 || (mode == 2 && r.Bool(1, 2)) || len(sg.Parts) == 0 {
+					continue
+				}
+				// the segment's first traf of a supported track: the time reference
+				var ref *PartTrackDesc
+				for pi := range sg.Parts {
+					for ti := range sg.Parts[pi].Tracks {
+						if ref == nil && sg.Parts[pi].Tracks[ti].Track >= 0 {
+							ref = &sg.Parts[pi].Tracks[ti]
+						}
+					}
+				}
+				if ref == nil {
+					continue
+				}
+				segRef := *ref
+				np := len(sg.Parts)
+				forced := r.Intn(np)
+				off := 0
+				for pi := 0; pi < np; pi++ {
+					if pi != forced && !r.Bool(1, 2) {
+						continue
+					}
+					pr := segRef
+					for _, pt := range sg.Parts[pi+off].Tracks {
+						if pt.Track >= 0 {
+							pr = pt
+							break
+						}
+					}
+					base := mulDivFloorBig(pr.Base, u.TimeScale, st.Tracks[pr.Track].TimeScale)
+					traf := PartTrackDesc{Track: -1 - x, Base: base}
+					cnt := 1 + r.Intn(3)
+					for c := 0; c < cnt; c++ {
+						traf.Samples = append(traf.Samples, SampleDesc{Dur: nominal, ID: nextID})
+						nextID++
+					}
+					if r.Bool(1, 8) {
+						// a moof of its own, before or after the part's
+						at := pi + off + r.Intn(2)
+						sg.Parts = append(sg.Parts, PartDesc{})
+						copy(sg.Parts[at+1:], sg.Parts[at:])
+						sg.Parts[at] = PartDesc{Tracks: []PartTrackDesc{traf}}
+						off++
+						continue
+					}
+					trs := sg.Parts[pi+off].Tracks
+					at := r.Intn(len(trs) + 1)
+					trs = append(trs, PartTrackDesc{})
+					copy(trs[at+1:], trs[at:])
+					trs[at] = traf
+					sg.Parts[pi+off].Tracks = trs
+				}
+			}
+		}
+	}
 }
 
 // ---------------- MPEG-TS ----------------
